@@ -33,7 +33,9 @@ def main(tier, replay=None):
                           link_target="qmail-remote", exclude=EXCL, extra_objs=extra)
     toklen, tokshards, ctllen = (5, 2, 5) if q else (7, 16, 6)
     jobs = [("%s dns 0 1 0" % misc, "DNS answers: truncations and sizes"), ("%s dns 0 1 1" % misc, "DNS answers: field overwrites"),
-            ("%s cdb" % misc, "corrupt cdb files"), ("%s ctl %s/ctl %d" % (misc, rd, ctllen), "control files")]
+            ("%s cdb %d" % (misc, 0 if q else 1), "corrupt cdb files"), ("%s ctl %s/ctl %d" % (misc, rd, ctllen), "control files")]
+    nb = 4 if q else 16
+    jobs += [("%s dns %d %d 2" % (misc, i, nb), "DNS answers: every byte := every value [shard %d/%d]" % (i, nb)) for i in range(nb)]
     jobs += [("%s tok %d %d %d" % (misc, toklen, i, tokshards), "address-list fields [shard %d/%d]" % (i, tokshards)) for i in range(tokshards)]
     jobs += [("%s %d 16" % (rem, i), "hostile SMTP replies [shard %d/16]" % i) for i in range(16)]
     jobs += [("%s report %d" % (c09, 6 if q else 7), "qmail-rspawn report(): every qmail-remote output")]
@@ -59,11 +61,11 @@ def main(tier, replay=None):
         crash_only(res, before)
     res.rule = ("every program is built with AddressSanitizer + UBSan (-fno-sanitize-recover); a sanitizer report, a fatal signal or an "
                 "undocumented exit code is a violation.  SEQ, exhaustive over: DNS answer templates (A, MX, CNAME chain, PTR, compression "
-                "loop) x {every truncation >= header, every 16-bit field := 0/1/0xFFFF/0x00FF, every total size 480..512 ending in a record "
+                "loop) x {every truncation >= header, every 16-bit field := 0/1/0xFFFF/0x00FF, every single byte := every value 0..255, every total size 480..512 ending in a record "
                 "header with rdlength 4/3/65535, 513..529 and 65535 bytes} through the real dns_ip/dns_mxip/dns_ptr with the unused part of "
                 "the answer buffer poisoned; every address-list field body over 16 characters up to length %d and comment nesting to 200 "
                 "through token822_parse/addrlist/unparse with exact-size buffers; a cdb image at every truncation and with every byte "
-                ":= 0x00/0xFF; every control file over 7 characters up to length %d; qmail-remote smtp() against 6 phases x 9 hostile reply "
+                ":= 0x00/0xFF (thorough: every value); every control file over 7 characters up to length %d; qmail-remote smtp() against 6 phases x 9 hostile reply "
                 "forms x 3 codes x 36 lengths (0..5, ~1024, each of 4990..5010, ~8192, 70000, 10^6) x 3 read sizes x {disconnect, "
                 "timeout}, output chained into qmail-rspawn report() on an exact-size heap copy.  VK: for each of 19 input surfaces "
                 "(SMTP/QMTP/QMQP/POP3 streams, popup credentials, maildir file names, qmail-inject and qreceipt headers, qmail-queue "
